@@ -66,6 +66,7 @@ type ILBlock struct {
 	PosList []int // source positions (token.Pos as int) of instructions translated into this block
 	// loop annotations (set by translator when known)
 	LoopHint string
+	Owner    any // translator frame that created the block
 	// analysis
 	idom  *ILBlock
 	order int
